@@ -127,6 +127,19 @@ class RuntimeAssertionFeedback(AssertionFeedback):
     _aggregate_verb = "Expected"
     _inverse_operator: str
 
+    def __init_subclass__(cls, **kwargs):
+        """ Whatever relation an assertion checks, it does not hold for an
+        operand that is an error (e.g., the result of a failed call). """
+        super().__init_subclass__(**kwargs)
+        relation_condition = cls.__dict__.get('condition')
+        if relation_condition is not None:
+            def condition(self, *operands, **settings):
+                if any(getattr(operand, 'is_error', False) for operand in operands):
+                    return True
+                return relation_condition(self, *operands, **settings)
+            condition.__doc__ = relation_condition.__doc__
+            cls.condition = condition
+
     def __init__(self, left, right, *args, **kwargs):
         self.report = kwargs.get('report', MAIN_REPORT)
         left.set_report(self.report)
